@@ -55,6 +55,9 @@ PROPS['C09'] = dict(
         ('FrameFacts', 'parse_frame', 'For EVERY construct (induction over all classes): a parse returns the stream it was given with at most another position.'),
         ('FrameFacts', 'pointer_restores', 'Pointer over ANY inner construct returns a seekable stream exactly as it was: whatever the inner parse did elsewhere leaves no trace.'),
         ('FrameFacts', 'peek_restores', 'Peek over ANY inner construct (success or swallowed failure) returns a seekable stream exactly as it was.'),
+        ('FrameFacts', 'union_none_restores', 'Union(None, ...) over ANY members returns a seekable stream exactly as it was.'),
+        ('FrameFacts', 'union_loop_restores', 'Every member of a Union is parsed from the same stream: after each member the stream is exactly the starting one.'),
+        ('FrameFacts', 'union_loop_records', 'Every end position a Union records is the end position of one of its members parsed from the starting stream.'),
     ],
     requires=['ConInd'],
     examples='''
@@ -369,8 +372,11 @@ Proof. split; vm_compute; reflexivity. Qed.
 
 PROPS['C06'] = dict(
     requires=['ConInd', 'RTFacts'],
+    prelude='Local Open Scope nat_scope.',
     title='C06 - malformed, truncated or failing input is always reported as ConstructError',
     theorems=[
+        ('TruncFacts', 'truncation_fragment', 'For EVERY construct of the closed sequential fragment (no read-to-end, optional or look-ahead parts at the top; any depth), every value it builds and EVERY strict prefix of the bytes built, at any stream position: parsing the prefix is rejected with StreamError - no value is produced from fewer bytes than the format requires.'),
+        ('TruncFacts', 'C06_truncated_rejected', 'The same on the public entry points: parse(build(v)[:k]) raises StreamError for every k < len.'),
         ('ErrFacts', 'parse_only_construct_errors', 'For EVERY construct of the closed sequential fragment (any depth) and EVERY input - any bytes, any position, truncated or not - parse returns a value or fails with a ConstructError subclass; no foreign exception comes out (the model\'s own meta outcomes apart).'),
         ('ErrFacts', 'C06_only_construct_errors', 'The same on the public entry point parse(data, **kw).'),
         ('StreamFacts', 'iread_discipline', 'A read either succeeds or is StreamError.'),
@@ -427,6 +433,9 @@ PROPS['C16'] = dict(
         ('LazyFacts', 'lazy_history_positions', 'Every position reported along any history is the position the parse left.'),
         ('LazyFacts', 'lazy_parse_table_complete', 'A parsed lazy result has an offset for every member and one for the end, on the stream it was parsed from.'),
         ('LazyFacts', 'lazyarray_matches_array', 'Whenever the eager Array parses (element independent of _index, measured size = consumed size), LazyArray parses to the same final stream and every element, whenever first accessed, is the eager element.'),
+        ('LazyFacts', 'lazystruct_matches_struct', 'Whenever the eager Struct parses (members that do not read the context, measured size = consumed size), LazyStruct parses to the same final stream and every member, whenever first accessed, is the value the eager parse gave it.'),
+        ('LazyFacts', 'member_ok_named_format', 'The member hypothesis holds for every named fixed-size Int*/Float*.'),
+        ('LazyFacts', 'member_ok_named_varint', 'The member hypothesis holds for a named VarInt (not measurable: parsed at once and cached).'),
         ('LazyFacts', 'elem_ok_format', 'The element hypothesis holds for every fixed-size Int*/Float* (measured and skipped).'),
         ('LazyFacts', 'elem_ok_varint', 'The element hypothesis holds for VarInt (not measurable: parsed at once and cached).'),
     ],
